@@ -33,10 +33,12 @@ func init() {
 
 func checkC07(c *core.Ctx) {
 	c.Decide("every write/lock method of the ledger store (derived from the storage package) is invoked, in all other packages, only on a transaction-scoped store (a callback parameter, a BeginTX result, or an adapter built from one); runLog receives the BeginTX result and hands its own store to the operation; every statement of storage/ledger is built on the store's db field (the field BeginTX swaps) or newScopedSelect; in forgeLog, runTx, Import, handleState and Bulker.Run every path from a successful BeginTX to an exit passes Commit or Rollback, Commit is outside error branches and on the non-dry-run side; no `err != nil` branch in storage/controller/bulk code falls through or returns nil outside the enumerated idioms")
-	c.NotDecided("that Postgres undoes a rolled-back transaction; behaviour when Rollback itself fails; events (C31)")
+	c.Decide("no event for a failed or dry-run write: the C31 event rules (listener calls only through handleEvent, queued inside a transaction and drained only after the inner Commit returned nil, cleared on Rollback, skipped on error and on DryRun) are obligations of this property too")
+	c.NotDecided("that Postgres undoes a rolled-back transaction; behaviour when Rollback itself fails")
 	c.Trust("database/sql + bun transaction semantics; class-hierarchy call resolution inside the module (no reflection-based store calls)")
 	ruleTxHandleOwnership(c)
 	ruleStatementHandle(c)
 	rulePairAll(c)
 	ruleErrorMustPropagate(c)
+	ruleEventsDecorator(c)
 }
